@@ -61,11 +61,21 @@
 (*            AFTER Goexit began (a function with defer called by a        *)
 (*            deferred function while the goroutine exits)                 *)
 (*            (goexit_unwinds_function_called_by_deferred_call)            *)
-(* With the constant switches FALSE a deviation action is replaced by what *)
-(* the reference prescribes at that step (proxy, goexit) or is disabled    *)
-(* (suspend: the behaviour is cut there and never completes); with TRUE    *)
-(* the model does what the real code does and records the name in `dev`.   *)
-(* The reference is never bent: Refines quantifies over dev = {} only.     *)
+(* The constants DevProxy / DevSuspend / DevGoexit say whether a deviation  *)
+(* exists (TRUE = the pinned tree).  With FALSE the deviation action is    *)
+(* not part of the machine: at that step the machine does what the         *)
+(* reference prescribes (FixRecoverThroughProxy, FixLateFrameReturns) or,  *)
+(* for `suspend`, for which no repaired run time is modelled, has no step  *)
+(* at all (the behaviour is cut there, predicate Cut, and never completes).*)
+(* With TRUE the machine does what the real code does and records the name *)
+(* in `dev`.  Branch = TRUE explores both at every deviation point in one  *)
+(* run (variable `mode`: "" no deviation point met yet, "real", "fixed";   *)
+(* a behaviour never mixes the two).  The reference is never bent: Refines *)
+(* quantifies over the behaviours with dev = {} only, and with the three   *)
+(* constants FALSE every complete behaviour has dev = {}.                  *)
+(* Call kinds 3 and 5 of the harness (method value: a bound function adds  *)
+(* no frame; function value) have the frames of the direct call: the       *)
+(* harness explores them as V = 0 and replays V = 0 in all three forms.    *)
 (*                                                                         *)
 (* The harness (harness/props/c08/impl.go) runs this module on exhaustive  *)
 (* small configurations and a seeded sample, requires the outcome with the *)
@@ -864,6 +874,7 @@ Cut == At("rd", "ret") /\ Quiet /\ retv.t = "blk" /\ Drops /\ MayFixed(DevSuspen
 Emit == (ended # "" \/ Cut) =>
   CSVWrite("%1$s", <<ToJson([id |-> pid - 1, V |-> V, Y |-> Y,
                             out |-> IF Cut THEN [Outcome EXCEPT !.end = "cut"] ELSE Outcome,
-                            dev |-> DevSeq, mode |-> (IF Cut THEN "fixed" ELSE mode), agrees |-> (~Cut /\ Agrees)])>>,
+                            dev |-> DevSeq, mode |-> (IF Cut THEN "fixed" ELSE mode), agrees |-> (~Cut /\ Agrees),
+                            ref |-> Ref])>>,
            OutFile \o "." \o ToString(pid % 64) \o ".ndjson")
 =============================================================================
